@@ -113,6 +113,7 @@ func runC09(p *core.Program, r *core.Report) {
 	r.Rule("C09.rehash", "rehash: 2n+1, threshold from new capacity, all old buckets re-bucketed with the lookup hash", 12)
 	r.Rule("C09.walks", "whole-table walks visit buckets 0..len-1 exactly", 12)
 	r.Rule("C09.enumer", "Keys/Values/Entries construct their enumerator with the matching discriminator", 30)
+	r.Rule("C09.elem-assert", "a type assertion on an element of the collection's own enumeration names a type the enumerator yields", 10)
 	r.Rule("C09.sort", "Sort: collect, sort.Sort, clear, re-insert all at the tail", 12)
 	r.Rule("C09.key-domain", "operations of one collection agree on which keys exist: no lookup/removal rejects a key the insertion path stores", 1)
 	r.Rule("C09.ctor", "every constructor leaves the collection with at least one bucket, whatever initial capacity it is given (lookups take the hash modulo the table length)", 13)
@@ -135,6 +136,7 @@ func runC09(p *core.Program, r *core.Report) {
 		h.checkRehash()
 		h.checkWalks()
 		h.checkEnumer()
+		h.checkElemAsserts()
 		h.checkSort()
 		h.checkIndexSign()
 		h.checkKeyDomain()
@@ -155,6 +157,7 @@ func runC12(p *core.Program, r *core.Report) {
 	r.Rule("C12.rehash", "rehash: 2n+1, threshold from new capacity, all old buckets re-bucketed with the lookup hash", 3)
 	r.Rule("C12.walks", "whole-table walks visit buckets 0..len-1 exactly", 3)
 	r.Rule("C12.enumer", "enumerator constructors carry the matching discriminator and start index", 3)
+	r.Rule("C12.elem-assert", "a type assertion on an element of the collection's own enumeration names a type the enumerator yields", 1)
 	r.Rule("C12.key-domain", "operations of one collection agree on which keys exist: no lookup/removal rejects a key the insertion path stores", 1)
 	r.Rule("C12.ctor", "every constructor leaves the collection with at least one bucket, whatever initial capacity it is given (lookups take the hash modulo the table length)", 4)
 	r.Rule("C12.index", "bucket indices are non-negative (unsigned modulo or masked hash)", 8)
@@ -173,6 +176,7 @@ func runC12(p *core.Program, r *core.Report) {
 		h.checkRehash()
 		h.checkWalks()
 		h.checkEnumer()
+		h.checkElemAsserts()
 		h.checkIndexSign()
 		h.checkKeyDomain()
 		h.checkCtor()
